@@ -709,7 +709,13 @@ void    mktemplate (int state[], int statenum, int comstate)
 		}
 
 	if (ctrl.usemecs)
-		mkeccl (transset, tsptr, tecfwd, tecbck, numecs, 0);
+		/* Without equivalence classes there are 256 symbols and the
+		 * last one (NUL) was stored in transset[] as 0, see above:
+		 * tell mkeccl() to map it back, or NUL never joins the
+		 * meta-equivalence class of the characters it behaves like.
+		 */
+		mkeccl (transset, tsptr, tecfwd, tecbck, numecs,
+			numecs > 255 ? numecs : 0);
 
 	mkprot (tnxt + tmpbase, -numtemps, comstate);
 
